@@ -8,12 +8,22 @@ from .facts import AnalysisBroken, strip_tmpl, VERIF
 WOULD_BLOCK = {_errno.EAGAIN, _errno.EWOULDBLOCK}
 
 
-def is_errno_cmp(term, values=None):
-    """Terminator condition of the form errno == <const> (errno is a macro: *__errno_location())."""
+def errno_locals(func):
+    """locals that hold a copy of errno (`const int err = errno;`), never reassigned"""
+    memo = func.__dict__.setdefault("_errno_locals", None)
+    if memo is None:
+        memo = {d["var"] for d in func.events("decl") if d.get("var") and "__errno_location" in ((d.get("init") or {}).get("t") or "")}
+        memo -= {(a.get("lhs") or {}).get("v") for a in func.events("assign")}
+        func.__dict__["_errno_locals"] = memo
+    return memo
+
+
+def is_errno_cmp(term, values=None, func=None):
+    """Terminator condition of the form errno == <const> (errno is a macro: *__errno_location()), or the same on a local copy of errno."""
     if not term or term.get("cmp") not in ("==", "!="):
         return None
     lhs = (term.get("lhs") or {}).get("t", "")
-    if "__errno_location" not in lhs:
+    if "__errno_location" not in lhs and not (func is not None and (term.get("lhs") or {}).get("v") in errno_locals(func)):
         return None
     c = term.get("rconst")
     if not isinstance(c, int):
@@ -28,7 +38,7 @@ def errno_arms(func, values):
     Returns {arm_block_id: [condition block ids]}."""
     arms = {}
     for b in func.blocks.values():
-        r = is_errno_cmp(b.term, values)
+        r = is_errno_cmp(b.term, values, func)
         if r and r[0] == "==" and b.term.get("k") in ("if", "lor", "land", "while", "cond"):
             if b.term.get("neg"):
                 continue
@@ -179,7 +189,8 @@ def single(prog, base):
     ids = {f.id for f in fs}
     if len(ids) != 1:
         raise AnalysisBroken("anchor %s is ambiguous: %d definitions" % (base, len(ids)))
-    return fs[0]
+    # helpers introduced after the reference snapshot are expanded in place (facts.Program.flat); on the reference tree this is fs[0]
+    return prog.flat(fs[0])
 
 
 # ---------- lockset (analysis A) ----------
@@ -1264,3 +1275,28 @@ def is_subscript_store(f, e):
         if x["k"] == "call" and x.get("op") == "=" and re.sub(r"\s+", "", (x.get("recv") or {}).get("t") or "") == t:
             return True
     return False
+
+
+def caller_holds(prog, fn, mutex, base="this", depth=3, _memo=None):
+    """fn is a helper that does not take `mutex` itself: true when every call site of fn (transitively through such helpers) holds a
+    live guard on base->mutex there.  Used for helpers that were split out of a locked region."""
+    _memo = {} if _memo is None else _memo
+    fn = prog.owner(fn)
+    if fn.id in _memo:
+        return _memo[fn.id]
+    _memo[fn.id] = False
+    sites = prog.call_sites(fn.base)
+    if not sites or depth <= 0:
+        return False
+    ok = True
+    for s_ in sites:
+        sf = prog.owner(s_.func) if s_.func.is_lambda else s_.func
+        ls = locksets(s_.func, lam_unlocks=lambda_unlocks(prog, s_.func)) if not s_.func.is_lambda else {}
+        if s_.func.is_lambda:
+            ok = ok and caller_holds(prog, s_.func, mutex, base, depth - 1, _memo)
+        elif holds(ls.get((s_.block, s_.idx)), mutex, base):
+            continue
+        elif not caller_holds(prog, sf, mutex, base, depth - 1, _memo):
+            ok = False
+    _memo[fn.id] = ok
+    return ok
